@@ -99,6 +99,35 @@ func p8(s string) int32 {
 	return int32(uint32(v))
 }
 
+// ---------- retained payload strings ----------
+
+// c16Keeper retains every payload string exactly as the library returned it, together with a private byte copy
+// taken at return time. The retained strings are looked at again only after all later reads on the connection.
+type c16Keeper struct {
+	s    []string
+	snap [][]byte
+}
+
+func (k *c16Keeper) keep(s string) int {
+	k.s = append(k.s, s)
+	k.snap = append(k.snap, append([]byte(nil), s...)) // byte copy, never aliases s
+	return len(k.s) - 1
+}
+
+// now: the bytes the retained string holds at this moment
+func (k *c16Keeper) now(i int) []byte { return []byte(k.s[i]) }
+
+// changed: a token " changed-was:<tag><i>=<snapshot>" for every retained string that no longer equals its snapshot
+func (k *c16Keeper) changed(tag string) string {
+	out := ""
+	for i := range k.s {
+		if !bytes.Equal([]byte(k.s[i]), k.snap[i]) {
+			out += fmt.Sprintf(" changed-was:%s%d=%s", tag, i, hx(k.snap[i]))
+		}
+	}
+	return out
+}
+
 // ---------- single-party operations ----------
 
 func c16Write(c *Ctx, id, typ int32, payload []byte, wfail bool) {
@@ -179,14 +208,19 @@ func c16Concat(c *Ctx, kind string, pkts []c16Pkt, trail []byte) {
 		r := newFakeConn(stream, kind, false)
 		rc := &mcnet.RCONConn{Conn: r}
 		var got []c16Pkt
+		var kp c16Keeper
 		for len(got) <= len(pkts)+len(trail)/14+2 {
 			id, typ, p, err := rc.ReadPacket()
 			if err != nil {
 				break
 			}
-			got = append(got, c16Pkt{id, typ, []byte(p)})
+			kp.keep(p) // the string itself is retained while the remaining frames are read
+			got = append(got, c16Pkt{id, typ, nil})
 		}
-		obs = fmt.Sprintf("stream=%s n=%d pkts=%s rest=%s", hx(stream), len(got), pktsString(got), hx(r.rest(stream)))
+		for i := range got { // only now, after the last read, are the retained payloads looked at
+			got[i].p = kp.now(i)
+		}
+		obs = fmt.Sprintf("stream=%s n=%d pkts=%s rest=%s%s", hx(stream), len(got), pktsString(got), hx(r.rest(stream)), kp.changed("p"))
 	}); g != "" {
 		obs = g
 	}
@@ -358,6 +392,7 @@ func c16Sess(c *Ctx, r int32, cpw, spw []byte, steps []c16Step) {
 	cl := &mcnet.RCONConn{Conn: pa, ReqID: r}
 	sv := &mcnet.RCONConn{Conn: pb}
 	var clog, slog []string
+	var ckeep, skeep c16Keeper // payload strings returned by Resp / AcceptCmd, retained until the session is over
 	var wg sync.WaitGroup
 	wg.Add(2)
 	tag := func(k string, err error) string {
@@ -401,7 +436,7 @@ func c16Sess(c *Ctx, r int32, cpw, spw []byte, steps []c16Step) {
 					return
 				}
 			} else {
-				clog = append(clog, "R+"+hx([]byte(resp)))
+				clog = append(clog, fmt.Sprintf("R+@%d", ckeep.keep(resp)))
 			}
 		}
 	}()
@@ -424,7 +459,7 @@ func c16Sess(c *Ctx, r int32, cpw, spw []byte, steps []c16Step) {
 				slog = append(slog, "A-")
 				return
 			}
-			slog = append(slog, "A+"+hx([]byte(cmd)))
+			slog = append(slog, fmt.Sprintf("A+@%d", skeep.keep(cmd)))
 			if st.forged == "r" {
 				err = sv.RespCmd(string(st.resp))
 			} else {
@@ -442,13 +477,82 @@ func c16Sess(c *Ctx, r int32, cpw, spw []byte, steps []c16Step) {
 	var obs string
 	select {
 	case <-done:
-		obs = fmt.Sprintf("c=%s s=%s creq=%s sreq=%s", strings.Join(clog, ","), strings.Join(slog, ","), h8(cl.ReqID), h8(sv.ReqID))
+		// the retained strings are rendered only now, after every later frame has been read on both connections
+		obs = fmt.Sprintf("c=%s s=%s creq=%s sreq=%s%s%s", c16RenderLog(clog, &ckeep), c16RenderLog(slog, &skeep), h8(cl.ReqID), h8(sv.ReqID),
+			ckeep.changed("c"), skeep.changed("s"))
 	case <-time.After(15 * time.Second):
 		a.Close()
 		b.Close()
 		obs = "hang"
 	}
 	c.Emit("rcon.sess", []string{h8(r), hx(cpw), hx(spw), stepsString(steps)}, obs)
+}
+
+// c16RenderLog replaces the "@<i>" references of a party's log by what the i-th retained string holds now.
+func c16RenderLog(log []string, k *c16Keeper) string {
+	out := make([]string, len(log))
+	for i, e := range log {
+		if j := strings.Index(e, "@"); j >= 0 {
+			n, _ := strconv.Atoi(e[j+1:])
+			e = e[:j] + hx(k.now(n))
+		}
+		out[i] = e
+	}
+	return strings.Join(out, ",")
+}
+
+// c16Hist: a history of reading methods on ONE scripted connection holding the frames of pkts (written by the
+// real WritePacket through one connection). calls[i]: 'p' ReadPacket, 'a' AcceptCmd, 'r' Resp. Every returned
+// payload string is retained; all of them are rendered after the last call.
+func c16Hist(c *Ctx, kind string, req int32, calls string, pkts []c16Pkt) {
+	var obs string
+	if g := guardT(20*time.Second, func() {
+		w := newFakeConn(nil, "w", false)
+		wc := &mcnet.RCONConn{Conn: w}
+		for _, p := range pkts {
+			if err := wc.WritePacket(p.id, p.typ, string(p.p)); err != nil {
+				obs = "err-write"
+				return
+			}
+		}
+		stream := append([]byte{}, w.out.Bytes()...)
+		r := newFakeConn(stream, kind, false)
+		rc := &mcnet.RCONConn{Conn: r, ReqID: req}
+		var kp c16Keeper
+		var log []string
+		for _, call := range calls {
+			switch call {
+			case 'p':
+				id, typ, p, err := rc.ReadPacket()
+				if err != nil {
+					log = append(log, "p-")
+				} else {
+					log = append(log, fmt.Sprintf("p+%s:%s:@%d", h8(id), h8(typ), kp.keep(p)))
+				}
+			case 'a':
+				p, err := rc.AcceptCmd()
+				if err != nil {
+					log = append(log, "a-")
+				} else {
+					log = append(log, fmt.Sprintf("a+@%d", kp.keep(p)))
+				}
+			case 'r':
+				p, err := rc.Resp()
+				if err != nil {
+					log = append(log, "r-")
+				} else {
+					log = append(log, fmt.Sprintf("r+@%d", kp.keep(p)))
+				}
+			}
+		}
+		obs = fmt.Sprintf("log=%s req=%s rest=%s%s", c16RenderLog(log, &kp), h8(rc.ReqID), hx(r.rest(stream)), kp.changed("h"))
+	}); g != "" {
+		obs = g
+	}
+	if calls == "" {
+		calls = "-"
+	}
+	c.Emit("rcon.hist", []string{kind, h8(req), calls, pktsString(pkts)}, obs)
 }
 
 // the real DialRCON + ListenRCON over loopback TCP; false if the sandbox does not allow it
@@ -676,6 +780,12 @@ func replayC16(c *Ctx, op string, a []string) bool {
 		c16TCP(c, unhx(a[0]), unhx(a[1]), unhx(a[2]), unhx(a[3]))
 	case "rcon.dial":
 		c16Dial(c, unhx(a[0]), a[1])
+	case "rcon.hist":
+		calls := a[2]
+		if calls == "-" {
+			calls = ""
+		}
+		c16Hist(c, a[0], p8(a[1]), calls, parsePkts(a[3]))
 	default:
 		return false
 	}
@@ -882,6 +992,62 @@ func genC16(c *Ctx) {
 	for i := 0; i < c.N(10, 200); i++ {
 		ps := []c16Pkt{{1, 2, c.c16Bytes(c.R.Intn(9))}, {2, 2, c.c16Bytes(4087 + c.R.Intn(3))}, {3, 2, c.c16Bytes(2)}}
 		c16Concat(c, "w", ps, nil)
+	}
+
+	// --- retained payloads: long-then-short, short-then-long, equal lengths; non-periodic payload bytes ---
+	c16Distinct := func(n int, salt byte) []byte { // bytes that differ at every position from any other salt
+		b := make([]byte, n)
+		for i := range b {
+			b[i] = byte(i*7+13) ^ salt
+		}
+		return b
+	}
+	for _, lens := range [][]int{{12, 3}, {3, 12}, {8, 8}, {8, 8, 8}, {20, 0, 5}, {0, 20, 1}, {4086, 7}, {7, 4086, 7}, {30, 29, 28, 27}, {1, 2, 3, 4}, {16, 16, 4, 16}} {
+		var ps []c16Pkt
+		for j, n := range lens {
+			ps = append(ps, c16Pkt{int32(j + 1), 2, c16Distinct(n, byte(0x30+j*0x25))})
+		}
+		c16Concat(c, "w", ps, nil)
+		c16Concat(c, "k3", ps, nil)
+		c16Hist(c, "w", 9, strings.Repeat("a", len(ps)), ps)
+		rs := make([]c16Pkt, len(ps))
+		for j := range ps {
+			rs[j] = c16Pkt{9, 0, ps[j].p}
+		}
+		c16Hist(c, "k2", 9, strings.Repeat("r", len(rs)), rs)
+		c16Hist(c, "w", 9, strings.Repeat("p", len(ps)), ps)
+	}
+	for i := 0; i < c.N(600, 20000); i++ {
+		k := 1 + c.R.Intn(8)
+		req := c.c16Int()
+		var ps []c16Pkt
+		var calls []byte
+		cur := req
+		for j := 0; j < k; j++ {
+			call := "par"[c.R.Intn(3)]
+			id, typ := c.c16Int(), c.c16Type()
+			switch call {
+			case 'a':
+				if c.R.Intn(5) != 0 {
+					typ = 2
+				}
+				cur = id
+			case 'r':
+				if c.R.Intn(5) != 0 {
+					id, typ = cur, 0
+				}
+			}
+			n := c.c16ShortLen()
+			if c.R.Intn(3) == 0 && j > 0 {
+				n = len(ps[j-1].p) // equal lengths
+			}
+			ps = append(ps, c16Pkt{id, typ, c.c16Bytes(n)})
+			calls = append(calls, call)
+		}
+		if c.R.Intn(6) == 0 { // one call more than there are frames: the last one meets the end of the stream
+			calls = append(calls, "par"[c.R.Intn(3)])
+		}
+		c16Hist(c, c.c16Kind(), req, string(calls), ps)
 	}
 
 	// --- single methods on scripted input ---
